@@ -40,6 +40,12 @@ class _File:
     def read(self):
         return "<<text:%s>>" % self.path
 
+    def close(self):
+        pass
+
+    def flush(self):
+        pass
+
     def write(self, s):
         self.fs.files[self.path] = ("text", s)
 
